@@ -19,7 +19,12 @@ RULE = ("Each case = a generated history of 2-7 writer transactions over a fresh
         "doc_count, stored-field iteration, Every/Not/Term searches (scored, unscored, sorted, grouped), raw posting "
         "lists, vectors, and the return values of delete_by_*; after cancel() the full logical dump must equal the "
         "dump before the writer. Non-trivial = history with a delete/update of a document living in an older segment "
-        "followed by a merging commit, or a cancel after deletes; distinct by SHA-1 of the operation-kind skeleton.")
+        "followed by a merging commit, or a cancel after deletes; distinct by SHA-1 of the operation-kind skeleton. "
+        "schema: the same kind of history where each transaction may run inside a `with` block (commit on exit, an "
+        "exception inside the block instead of cancel()) and may start with add_field / remove_field; after every "
+        "transaction the model comparison above, the schema's field names (unchanged after a cancelled or failed "
+        "block, durable after reopen), searches on the added field and an immediate new writer (lock released) are "
+        "checked. Non-trivial = a committed or cancelled transaction with a schema change or a with-block.")
 ASSUMPTIONS = [
     "key discipline of the statement: each key is written at most once per writer (enforced by construction)",
     "delete queries come from the unambiguous part of the query grammar (no FuzzyTerm)",
@@ -213,6 +218,155 @@ def run(case, out):
         out.label(case["store"])
 
 
+# ---------------------------------------------------------------------------------------------------------
+# with-blocks (commit on exit, cancel on exception) and schema changes inside a history
+
+def strategy_schema(tier):
+    extra = st.fixed_dictionaries({"via": st.sampled_from(["plain", "with", "with"]),
+                                   "schema_op": st.sampled_from([None, None, "add_x", "remove_w", "remove_x"])})
+    return st.fixed_dictionaries({
+        "hist": gen.history_s(max_txs=6, min_txs=2, max_docs=5, allow_cancel=True,
+                              schema_s=st.fixed_dictionaries({"t_vector": st.booleans(), "g_sortable": st.booleans()})),
+        "extras": st.lists(extra, min_size=6, max_size=6),
+        "store": st.sampled_from(["ram", "file"]),
+    })
+
+
+class _Left(Exception):
+    pass
+
+
+class ProxyWriter(object):
+    """Delegates to a real writer; ends the transaction the way a `with ix.writer() as w:` block does when asked to."""
+
+    def __init__(self, real, via, with_x):
+        self._real, self._via, self._with_x = real, via, with_x
+        self.added_with_x = []
+
+    def __getattr__(self, name):
+        return getattr(self._real, name)
+
+    def _kw(self, kw):
+        if self._with_x:
+            kw = dict(kw)
+            kw["x"] = u"extra"
+            self.added_with_x.append(kw["k"])
+        return kw
+
+    def add_document(self, **kw):
+        return self._real.add_document(**self._kw(kw))
+
+    def update_document(self, **kw):
+        return self._real.update_document(**self._kw(kw))
+
+    def commit(self, **kw):
+        if self._via != "with":
+            return self._real.commit(**kw)
+        # inside a with-block the options are attributes of the writer
+        if kw.get("optimize"):
+            self._real.optimize = True
+        if kw.get("merge") is False:
+            self._real.merge = False
+        self._real.__enter__()
+        return self._real.__exit__(None, None, None)
+
+    def cancel(self):
+        if self._via != "with":
+            return self._real.cancel()
+        e = _Left("exception inside the with-block")
+        return self._real.__exit__(_Left, e, None)
+
+
+def run_schema(case, out):
+    from whoosh import fields as wfields
+    hist = case["hist"]
+    with tempdir() as d:
+        schema = corpus.build_schema(hist.get("schema"))
+        ix = corpus.create_index(case["store"], d, schema)
+        model = corpus.Model()
+        xdocs = set()
+        has_x = False
+        has_w = True
+        x_was_removed = False
+        nt = False
+        skeleton = []
+        for i, tx in enumerate(hist["txs"]):
+            ex = case["extras"][i % len(case["extras"])]
+            names_before = sorted(ix.schema.names())
+            before = dump(ix) if tx.get("end") == "cancel" else None
+            w = ix.writer(**corpus.writer_kwargs(tx))
+            op = ex["schema_op"]
+            new_x, new_w = has_x, has_w
+            removing_x = False
+            if op == "add_x" and not has_x and not x_was_removed:
+                # (re-adding a removed field name is documented to possibly bring back the old field's data from
+                # segments that were not rewritten yet: not generated)
+                w.add_field("x", wfields.KEYWORD(stored=True))
+                new_x = True
+            elif op == "remove_x" and has_x:
+                w.remove_field("x")
+                new_x = False
+                removing_x = True
+            elif op == "remove_w" and has_w:
+                w.remove_field("w")
+                new_w = False
+            else:
+                op = None
+            tx2 = dict(tx)
+            if not new_w:
+                tx2["ops"] = [[o[0], dict(o[1], w=[])] if o[0] in ("add", "upd") else o for o in tx["ops"]]
+            pw = ProxyWriter(w, ex["via"], new_x)
+            committed = corpus.apply_tx(ix, model, tx2, ref_eval, to_whoosh, writer=pw)
+            skeleton.append([[o[0] for o in tx["ops"]], tx.get("end"), ex["via"], op])
+            if committed:
+                x_was_removed = x_was_removed or removing_x
+                has_x, has_w = new_x, new_w
+                xdocs = (xdocs | set(pw.added_with_x)) if has_x else set()
+            else:
+                after = dump(ix)
+                if after != before:
+                    out.fail("c07.cancel_changed_index:%s" % ex["via"], diff(before, after))
+                if sorted(ix.schema.names()) != names_before:
+                    out.fail("c07.cancel_changed_schema:%s" % ex["via"], [names_before, sorted(ix.schema.names())])
+                if ex["via"] == "with" or op:
+                    nt = True
+            if ("x" in ix.schema.names()) != has_x or ("w" in ix.schema.names()) != has_w:
+                out.fail("c07.schema_after_transaction", {"tx": i, "names": sorted(ix.schema.names()), "x": has_x, "w": has_w})
+            verify(ix, model, out, "tx%d" % i)
+            if has_x:
+                s = ix.searcher()
+                try:
+                    got = _keys(s, s.docs_for_query(wq.Term("x", u"extra")))
+                    exp = sorted(k for k in xdocs if k in model.docs)
+                    if got != exp:
+                        out.fail("c07.added_field_search", {"tx": i, "got": got, "expected": exp})
+                finally:
+                    s.close()
+            if committed and (op or ex["via"] == "with"):
+                nt = True
+            # writers never dead-lock the index
+            try:
+                w2 = ix.writer(timeout=0)
+                w2.cancel()
+            except Exception as e:
+                out.fail("c07.index_left_locked:%s" % type(e).__name__, {"tx": i, "via": ex["via"], "end": tx.get("end")})
+                break
+            if out.violations:
+                break
+        if case["store"] != "ram" and not out.violations:
+            from whoosh import index as windex
+            ix2 = windex.open_dir(d)
+            if ("x" in ix2.schema.names()) != has_x or ("w" in ix2.schema.names()) != has_w:
+                out.fail("c07.schema_after_reopen", sorted(ix2.schema.names()))
+            verify(ix2, model, out, "reopen")
+            ix2.close()
+        ix.close()
+    out.nontrivial = nt
+    out.key = skeleton
+    out.label(case["store"])
+
+
 SUBS = {
     "history": Sub(run, strategy, quick=120, thorough=800, quick_shards=8),
+    "schema": Sub(run_schema, strategy_schema, quick=60, thorough=500, quick_shards=8),
 }
